@@ -207,8 +207,21 @@ def handleObsRefs (st : RibSt) (refs : List (Bool × NI × Nat × Nat)) : RibSt 
   let okNh := mNh.length == iNh.length && iNh.all (fun r => Rib.cnt st.model.nhRef (r.2.1, r.2.2.1) == r.2.2.2)
   if okNhg && okNh then st else st.diff "refs" s!"model.nhg={showRefs mNhg} model.nh={showRefs mNh}"
 
+/-- invalid whatever the state of the RIB: zero ids, zero or missing group, empty group -/
+def structBad (op : Op) : Bool :=
+  op.cls != .wf ||
+  (match op.key with
+   | .nh i => i == 0
+   | .nhg g => g == 0 || op.pl.nhs.isEmpty || op.pl.nhs.contains 0
+   | _ => op.pl.grp == 0)
+
 def handleObsPend (st : RibSt) (ids : List Nat) : RibSt :=
   let st := { st with implPend := ids }
+  -- C12 monitor: an operation that can never be valid must not be held
+  let st := ids.foldl (fun st id =>
+    match st.ops.get? id with
+    | some op => if structBad op then st.monfail "c12" s!"malformed operation {id} is held instead of being answered FAILED" else st
+    | none => st) st
   -- C02 monitor: no held operation is resolvable (or failing) in the implementation's own state
   let implRib : Rib := { st.model with ents := st.implEnts, pend := [] }
   let st := ids.foldl (fun st id =>
